@@ -19,8 +19,21 @@ LEDGER_RULE = ("ledger stream: one evaluation = one line: an accepted account bl
                "every token's supply/max/flags, number of unreceived sends); monitors: conservation sum at every momentum and "
                "every pool state, pending sets, at-most-once receive, inbox FIFO, exact refund; distinct = distinct lines")
 
-PROPS = {
-    "C01": {
+VERIFY_RULE = ("verify stream: one evaluation = one candidate account block handed to the real vm.Supervisor.ApplyBlock on a "
+               "reachable state of a real node (generated history of transfers, receives, contract calls, pooled blocks, "
+               "momentums; one history in six below the receiver-enforcement height). Candidates per base block (fresh user "
+               "send / user receive / send to a contract, pooled user block and pooled contract receive with and without "
+               "descendant blocks re-delivered, confirmed block re-delivered): the valid block, every single-field mutation "
+               "(~150: each field zero/+-1/max/boundary/copied from another block/foreign hash/wrong or older predecessor/"
+               "acknowledged momentum zero, unknown, older, non-frontier/amount -1, 2^255-1, 2^255, balance+1/receives of "
+               "received, unknown, third-party sends/PoW with bad nonce/plasma too high/data > 16 KiB/type 0,1,4,5,6/...) "
+               "each with the hash left alone and with hash recomputed + re-signed by the legitimate key, 16 key/signature "
+               "mutations, the same mutations inside descendant blocks, and 24 sampled double mutations; the line carries "
+               "the block's verifier-relevant fields and the context facts gathered by independent reads of the stores; "
+               "the Lean model must give the same verdict AND the same reason; monitor: the property's sentence "
+               "re-implemented from the statement, evaluated on every accepted candidate; distinct = distinct lines")
+
+PROPS = {    "C01": {
         "module": "ZenonVerif.Props.C01",
         "streams": [S("ledger", 60, 3000)],
         "rule": LEDGER_RULE,
@@ -54,6 +67,17 @@ PROPS = {
                    "in Go a refund whose recipient is itself an embedded contract (empty call data) is refused by applySend, so "
                    "refund_always_possible transfers to the code for non-embedded senders only",
         "assumptions": ["hashes are opaque identifiers (collision-free)"],
+    },
+    "C03": {
+        "module": "ZenonVerif.Props.C03",
+        "streams": [S("verify", 60, 2500)],
+        "rule": VERIFY_RULE,
+        "partial": "SHA3/Ed25519/PoW hash, the embedded method table (plasma, ValidateSendBlock) and the regeneration of "
+                   "contract blocks are oracle facts supplied by the harness from the real functions; descendant blocks of receive type are outside the model "
+                   "(MODEL-GAP, never produced by the node); that the regenerated descendant blocks pass the nine checks "
+                   "is assumed (they are the node's own), that they are the ones kept is an AST fact (fix 48b97c9, F20b)",
+        "assumptions": ["SHA3-256 and Ed25519 are oracle booleans (hash matches, signature verifies, key maps to address)",
+                        "the node's stores answer the context facts consistently (the facts are inputs of the model)"],
     },
     "C07": {
         "module": "ZenonVerif.Props.C07",
